@@ -273,6 +273,11 @@ func (i idxField) SetValue(opts *options, elem value, v value) Error {
 	if i.i < 0 {
 		return raiseIndexOutOfBounds(opts, elem, i.i)
 	}
+	// the limit for indices given as (part of) a name applies to the index
+	// argument of the setters as well, it bounds the number of entries allocated
+	if opts != nil && int64(i.i) > opts.maxIdx {
+		return raiseIndexOutOfBounds(opts, elem, i.i)
+	}
 
 	sub.c.fields.setAt(i.i, elem, v)
 	v.SetContext(context{parent: elem, field: i.String()})
